@@ -3,7 +3,7 @@ import Utcp.Props.C11
 /-!
 # Where delivered bunches come from (receiver side)
 
-`Q` is any predicate on bunches that does not look at the sequence number or the packet id (`QStable`).  `OInv Q c`: every bunch
+`Q` is any predicate on bunches that does not look at the packet id and survives making the sequence number absolute (`QStable`).  `OInv Q c`: every bunch
 waiting in a channel of `c` (out-of-order queue, reassembly list) satisfies `Q`.  `OP Q ev`: if `ev` is a receive callback, every
 bunch it carries satisfies `Q`.  One lemma per function of the receive path; then: if the body of every packet is a concatenation of
 encodings of well-formed bunches satisfying `Q`, everything ever delivered satisfies `Q`.
@@ -12,7 +12,10 @@ namespace Utcp
 open Gen Partial
 
 structure QStable (Q : Bunch → Prop) : Prop where
-  seq : ∀ (b : Bunch) (s : Int), Q b → Q { b with chSeq := s }
+  /-- a reliable bunch keeps `Q` when its wire sequence is made absolute against any reference -/
+  seq : ∀ (b : Bunch) (ref : Int), b.bReliable = true → Q b → Q { b with chSeq := MakeRelative_chseq b.chSeq ref }
+  /-- an unreliable bunch keeps `Q` whatever sequence it borrows -/
+  useq : ∀ (b : Bunch) (s : Int), b.bReliable = false → Q b → Q { b with chSeq := s }
   pid : ∀ (b : Bunch) (p : Int), Q b → Q { b with packetId := p }
 
 def ChanQ (Q : Bunch → Prop) (x : Channel) : Prop := (∀ q ∈ x.inRec, Q q) ∧ (∀ q ∈ x.inPartial, Q q)
@@ -228,9 +231,11 @@ theorem receivedRawBunch_oinv {Q : Bunch → Prop} (hQ : QStable Q) (c : Conn) (
         have hb' : Q (absSeq ((c.emit (.alloc .node)).getOrCreateChan { b with packetId := (c.emit (.alloc .node)).inPacketId } true).1 x { b with packetId := (c.emit (.alloc .node)).inPacketId }) := by
           unfold absSeq
           split
-          · exact hQ.seq _ _ (hQ.pid _ _ hb)
-          · split
-            · exact hQ.seq _ _ (hQ.pid _ _ hb)
+          · rename_i hrel
+            exact hQ.seq _ _ hrel (hQ.pid _ _ hb)
+          · rename_i hrel
+            split
+            · exact hQ.useq _ _ (by simpa using hrel) (hQ.pid _ _ hb)
             · exact hQ.pid _ _ hb
         obtain ⟨p1, p2⟩ := processBunch_oinv _ x _ g1 (g2 x hx) hb'
         obtain ⟨d1, d2⟩ := dispatchWaiting_oinv _ _ _ p1
